@@ -53,11 +53,21 @@ func (e vfNetErr) Error() string   { return "i/o problem" }
 func (e vfNetErr) Timeout() bool   { return e.timeout }
 func (e vfNetErr) Temporary() bool { return false }
 
-// vfFault draws an error and the status it must map to (0 = any 5xx).
+var vfStatusTextCode int
+
+// vfFault draws an error and the status it must map to (0 = any 5xx, -1 = the carried status, -2 = the status
+// named by the error text for https targets).
 func vfFault() (error, int) {
 	var err error
 	want := 0
-	switch vfrt.Choice("fault", 14) {
+	switch vfrt.Choice("fault", 16) {
+	case 14:
+		err, want = &tls.ECHRejectionError{}, 502
+	case 15:
+		// what http.Transport reports when the upstream proxy rejects its CONNECT for an https request: an error whose
+		// text is the status text; relayed as that status for https targets (-2: see the caller)
+		vfStatusTextCode = []int{403, 407, 502, 503}[vfrt.Choice("status-text", 4)]
+		err, want = errors.New(http.StatusText(vfStatusTextCode)), -2
 	case 12:
 		// the origin took the request and went away without a reply: end of stream or a reset
 		err, want = []error{io.EOF, io.ErrUnexpectedEOF}[vfrt.Choice("eof-kind", 2)], 0
@@ -94,8 +104,14 @@ func vfFault() (error, int) {
 	switch vfrt.Choice("wrap", 3) {
 	case 1:
 		err = fmt.Errorf("while doing things: %w", err)
+		if want == -2 {
+			want = 500 // only the bare error text (as http.Transport returns it) names a status
+		}
 	case 2:
 		err = &url.Error{Op: "Get", URL: "http://example.com/", Err: err}
+		if want == -2 {
+			want = 500
+		}
 	}
 	return err, want
 }
@@ -120,6 +136,12 @@ func vfH_C12_map() {
 	}
 	code := res.StatusCode
 	vfrt.Observe("status", code)
+	if want == -2 {
+		want = 500
+		if scheme == "https" {
+			want = vfStatusTextCode
+		}
+	}
 	switch {
 	case want == -1:
 		vfrt.Reach("map-carried")
